@@ -187,6 +187,11 @@ pub trait KeyLike:
     fn oid(&self) -> u64;
     fn with_q1<R>(n: u32, f: impl FnOnce(&Self::Q1) -> R) -> R;
     fn with_q2<R>(n: u32, f: impl FnOnce(&Self::Q2) -> R) -> R;
+    /// lookups through a borrowed form that *aliases* the stored key's own buffer (e.g. a
+    /// `&str` prefix sliced from a resident `String` key obtained from the cache itself)
+    fn alias_probe<C: Cache<Self, TVal>>(_c: &C, _resident: &[&Self]) -> Option<String> {
+        None
+    }
 }
 
 impl KeyLike for TKey {
@@ -233,6 +238,23 @@ impl KeyLike for String {
     fn with_q2<R>(n: u32, f: impl FnOnce(&String) -> R) -> R {
         let s = num_to_str(n);
         f(&s)
+    }
+    fn alias_probe<C: Cache<String, TVal>>(c: &C, resident: &[&String]) -> Option<String> {
+        for k in resident {
+            let full: &str = k.as_str();
+            // the key's own buffer as the probe: must be found
+            if !c.contains(full) || c.peek(full).is_none() {
+                return Some(format!("resident key {:?} is not found through a &str borrowed from the stored key itself", full));
+            }
+            // proper prefixes / suffixes of the stored buffer are different keys (all keys of
+            // the harness have the same length, so none of them can be resident)
+            for probe in [&full[..full.len() - 1], &full[..4], &full[1..], &full[..0]] {
+                if c.contains(probe) || c.peek(probe).is_some() {
+                    return Some(format!("lookup of {:?} (a slice of the stored key {:?}) reports a resident entry", probe, full));
+                }
+            }
+        }
+        None
     }
 }
 
@@ -409,6 +431,8 @@ pub struct Probes {
     pub contains: Vec<(bool, bool)>,
     pub peek: Vec<(Option<u64>, Option<u64>)>,
     pub seg_lens: Vec<u64>,
+    /// outcome of the aliasing lookups (String keys)
+    pub alias: Option<String>,
 }
 
 fn items<'a, K: KeyLike + 'a>(v: Vec<(&'a K, &'a TVal)>) -> Vec<Item> {
@@ -532,10 +556,7 @@ where
         if spec.clone_at == i {
             if let Some(cl) = cloner {
                 let c2 = cl(&it);
-                clone_rest = Some(c2.map(|t| {
-                    let r = conv(t, None);
-                    (r.0, r.1)
-                }).collect::<Vec<_>>());
+                clone_rest = Some(drain_both_ends(c2, &mut conv));
             }
         }
         let back = (spec.pat >> i) & 1 == 1;
@@ -561,10 +582,7 @@ where
     if spec.clone_at == spec.steps {
         if let Some(cl) = cloner {
             let c2 = cl(&it);
-            clone_rest = Some(c2.map(|t| {
-                let r = conv(t, None);
-                (r.0, r.1)
-            }).collect::<Vec<_>>());
+            clone_rest = Some(drain_both_ends(c2, &mut conv));
         }
     }
     tr.clone_rest = clone_rest;
@@ -580,6 +598,36 @@ where
     }
     tr.final_count = it.count();
     tr
+}
+
+/// drain an iterator alternating next / next_back and return the items in iteration order
+fn drain_both_ends<I, T>(mut it: I, conv: &mut impl FnMut(T, Option<u64>) -> ItemRec) -> Vec<(Option<u32>, Option<u64>)>
+where
+    I: DoubleEndedIterator<Item = T> + ExactSizeIterator,
+{
+    let mut front = vec![];
+    let mut back = vec![];
+    let mut guard = it.len() + 3;
+    let mut from_back = true;
+    while guard > 0 {
+        guard -= 1;
+        let x = if from_back { it.next_back() } else { it.next() };
+        match x {
+            None => break,
+            Some(t) => {
+                let r = conv(t, None);
+                if from_back {
+                    back.push((r.0, r.1));
+                } else {
+                    front.push((r.0, r.1));
+                }
+            }
+        }
+        from_back = !from_back;
+    }
+    back.reverse();
+    front.extend(back);
+    front
 }
 
 /// how many fresh value ids an iterator op may consume
@@ -1226,6 +1274,18 @@ impl<K: KeyLike, C: Subject<K> + 'static> DynSubject for Wrap<K, C> {
                 let p1 = K::with_q1(k, |q| c.peek(q).map(|v| v.read()));
                 let p2 = K::with_q2(k, |q| c.peek(q).map(|v| v.read()));
                 p.peek.push((p1, p2));
+            }
+            {
+                let nres = C::KIND.resident_lists();
+                let mut resident: Vec<&K> = vec![];
+                for (i, (_, r)) in c.lists(false).into_iter().enumerate() {
+                    if i < nres {
+                        if let Ok(v) = r {
+                            resident.extend(v.into_iter().map(|(k, _)| k));
+                        }
+                    }
+                }
+                p.alias = K::alias_probe(&*c, &resident);
             }
             p
         })
